@@ -342,8 +342,8 @@ pub fn gen_ops(r: &mut Rng, g: &RefGraph, nv: &NamedView, p: &Profile, next_m: &
             (19, 0.5),                   // to_adjoint
             (20, 1.2),                   // subgraph
             (21, 1.5 * grow.min(1.0)),   // append
-            (22, 2.5),                   // plug_vertex / plug_input / plug_output / plug_inputs
-            (23, 3.0 * grow.min(1.0)),   // boundary wiring compound (B vertex + edge + io entry)
+            (22, 4.0),                   // plug_vertex / plug_input / plug_output / plug_inputs
+            (23, 4.0 * grow.min(1.0)),   // boundary wiring compound (B vertex + edge + io entry)
         ];
         let total: f64 = w.iter().map(|x| x.1).sum();
         let mut x = r.f64() * total;
@@ -402,6 +402,7 @@ fn pick_edge(r: &mut Rng, g: &RefGraph) -> Option<(M, M, EType)> {
 
 fn gen_cat(r: &mut Rng, cat: u8, g: &RefGraph, nv: &NamedView, p: &Profile, next_m: &mut M) -> Option<Vec<Op>> {
     let in_io = |m: M| g.inputs.contains(&m) || g.outputs.contains(&m);
+    let n = g.num_vertices();
     Some(match cat {
         0 => match r.below(4) {
             0 | 1 => vec![Op::AddVertex { ty: gen_vtype(r), m: fresh(next_m) }],
